@@ -7,6 +7,7 @@ import math
 import numpy as np
 from hypothesis import strategies as st
 
+from ..core import quiet
 from ..oracles.geometry import R_EARTH, DiffuseGeometry
 from ..strategies import bfloat, log_uniform, near, unit_closed
 
@@ -114,6 +115,33 @@ def batches(min_batches=2, max_batches=4, max_size=12):
     return st.integers(1, max_size).flatmap(
         lambda k: st.lists(st.one_of(points(k, k), points(k, k), points(1, max_size)), min_size=min_batches, max_size=max_batches)
     )
+
+
+BAD_THROWS = ["rows3", "transposed", "none", "below0", "above1", "nan", "list"]
+
+
+def bad_throw(g, u, kind):
+    """A throw() with an argument the stage may reject. Returns True when it raised (the call was rejected): the
+    object must then still describe the previous batch, completely (see the history sub-checks)."""
+    n = u.shape[1]
+    if kind == "rows3":
+        arg = u[:3].copy()
+    elif kind == "transposed":  # (N, 4) block instead of (4, N); a length that differs from the current batch
+        w = np.concatenate([u, u[:, :1], u[:, :1]], axis=1)
+        arg = np.ascontiguousarray(w.T if w.shape[1] != 4 else np.concatenate([w, u[:, :1]], axis=1).T)
+    elif kind == "none":
+        arg = None
+    elif kind == "list":
+        arg = u.tolist()
+    else:
+        arg = u.copy()
+        arg[3, n // 2] = {"below0": -1e-3, "above1": 1.001, "nan": float("nan")}[kind]
+    try:
+        with quiet():
+            g.throw(arg)
+    except Exception:  # noqa: BLE001 - which inputs are rejected is not the question here; what the object says afterwards is
+        return True
+    return False
 
 
 def snapshot_throw(g, s_list=None, with_integral=True):
